@@ -658,9 +658,10 @@ impl IntoIter {
     pub fn as_mut_slice(&mut self) -> &mut [Value] {
         if let ValueMut::Array(array) = self.array.0.as_mut() {
             unsafe {
-                let ptr = array.as_mut_ptr();
-                let len = array.len();
-                from_raw_parts_mut(ptr, len)
+                // only what is left: the consumed positions in front of `index` and behind `len`
+                // were taken out and hold null
+                let ptr = array.as_mut_ptr().add(self.index);
+                from_raw_parts_mut(ptr, self.len - self.index)
             }
         } else {
             panic!("Array::as_mut_slice: not an array");
@@ -669,10 +670,13 @@ impl IntoIter {
 
     pub fn as_slice(&self) -> &[Value] {
         // an empty array has its own representation, `as_value_slice` knows both
-        self.array
+        let all = self
+            .array
             .0
             .as_value_slice()
-            .expect("Array::as_slice: not an array")
+            .expect("Array::as_slice: not an array");
+        // only what is left, see `as_mut_slice`
+        &all[self.index..self.len]
     }
 }
 
